@@ -412,6 +412,13 @@ struct Gen {
         if (cs.n[(size_t) id].selfIssued) { cs.n[(size_t) id].signKey = cs.n[(size_t) id].key; cs.n[(size_t) id].akiKey = cs.n[(size_t) id].key; }
     }
     void note(const char *cls, int pos) { cs.defects.push_back(Defect{ cls, pos }); }
+    // the CRL cache keeps one CRL per issuer name (psCRL_Update replaces): generate at most one per name
+    bool add_crl(const Crl &r)
+    {
+        for (auto &o : cs.crls) if (name_eq(o.issuer, r.issuer)) return false;
+        cs.crls.push_back(r);
+        return true;
+    }
 
     int other_node(int self)
     {
@@ -500,7 +507,8 @@ struct Gen {
             Node &c = mp(subPos); Node &ci = mp(subPos + 1);
             Crl r; r.issuer = c.issuerName; r.signKey = ci.key; r.revokedNodes.push_back(c.id); r.hash = good_hash();
             r.extraSerials = (int) t.below(3); r.aki = t.coin();
-            cs.crls.push_back(r); note("revoked", subPos); break;
+            if (add_crl(r)) note("revoked", subPos);
+            break;
         }
         case 22: s.nb = 100 * DAY; s.na = -100 * DAY; note("dates-inverted", subPos); break;
         default: break;
@@ -644,10 +652,11 @@ struct Gen {
         Node &c = mp(pos); Node &ci = mp(pos + 1);
         Crl r; r.issuer = c.issuerName; r.signKey = ci.key; r.hash = good_hash(); r.extraSerials = 1 + (int) t.below(3); r.aki = t.coin();
         unsigned v = (unsigned) t.below(4);
-        if (v == 1) { r.sigBad = true; r.revokedNodes.push_back(c.id); note("crl-forged-lists-cert", pos); }
-        else if (v == 2) { r.signKey = new_key(); r.revokedNodes.push_back(c.id); note("crl-wrong-signer-lists-cert", pos); }
+        const char *cls = "crl-clean";
+        if (v == 1) { r.sigBad = true; r.revokedNodes.push_back(c.id); cls = "crl-forged-lists-cert"; }
+        else if (v == 2) { r.signKey = new_key(); r.revokedNodes.push_back(c.id); cls = "crl-wrong-signer-lists-cert"; }
         else if (!foreign.empty()) r.revokedNodes.push_back(foreign[0]);
-        cs.crls.push_back(r);
+        if (add_crl(r)) note(cls, pos);
     }
 
     // F4 class: exactly one "soft" defect that psX509AuthenticateCert records in authStatus
@@ -729,9 +738,6 @@ struct Gen {
         {
             int pos = (int) t.below((uint64_t) last);
             Node &c = mp(pos); Node &ci = mp(pos + 1);
-            bool dup = false;
-            for (auto &r0 : cs.crls) if (name_eq(r0.issuer, c.issuerName)) dup = true;
-            if (dup) continue;                       // one CRL per issuer name (the cache replaces same-issuer CRLs)
             Crl r; r.issuer = c.issuerName; r.signKey = ci.key; r.hash = good_hash(); r.extraSerials = (int) t.below(4); r.aki = t.coin();
             bool lists = !t.chance(1, 4);
             if (lists) r.revokedNodes.push_back(c.id);
@@ -743,7 +749,7 @@ struct Gen {
             else if (v == 11) { ci.ku = mint::KU_CERTSIGN | mint::KU_DIGSIG; cls = lists ? "crl-issuer-without-crlsign" : "crl-clean"; }
             else if (v == 12) { r.next = -(int64_t) (3 + t.below(100)) * DAY; cls = lists ? "crl-expired-lists-cert" : "crl-expired"; }
             else if (v == 13) { r.next = -(int64_t) (600 + t.below(80000)); cls = lists ? "crl-grey-lists-cert" : "crl-grey"; }
-            cs.crls.push_back(r);
+            if (!add_crl(r)) continue;
             note(cls, pos);
         }
     }
